@@ -118,51 +118,82 @@ func (l *learner) lookup(path string, st kst, e c04Entry) learned {
 	return res
 }
 
+// c04Indeterminate: a request that came back FAILED/UNKNOWN (or with a malformed result list) may or may not have
+// taken effect; it stays open until the end of the history and the model accepts both possibilities.
+func c04Indeterminate(in c04In, out c04Out) bool {
+	if in.Kind == "read" {
+		return false
+	}
+	if len(out.Verdicts) != len(in.Entries) {
+		return true
+	}
+	for _, v := range out.Verdicts {
+		if v == core.ResultFailed || v == core.ResultUnknown {
+			return true
+		}
+	}
+	return false
+}
+
 func c04Model(l *learner) porcupine.Model {
-	return porcupine.Model{
-		Init: func() any { return c04State{{-1, -1, -1}, {-1, -1, -1}, {-1, -1, -1}} },
-		Step: func(state, input, output any) (bool, any) {
+	nm := porcupine.NondeterministicModel{
+		Init: func() []any { return []any{c04State{{-1, -1, -1}, {-1, -1, -1}, {-1, -1, -1}}} },
+		Step: func(state, input, output any) []any {
 			st := state.(c04State)
 			in := input.(c04In)
 			out := output.(c04Out)
 			if in.Kind == "read" {
-				return out.Read == st, st
-			}
-			if len(out.Verdicts) != len(in.Entries) {
-				return false, st
+				if out.Read == st {
+					return []any{st}
+				}
+				return nil
 			}
 			path := in.Kind
+			if c04Indeterminate(in, out) {
+				// Either nothing happened, or the whole request was evaluated (atomically) with whatever verdicts.
+				applied := st
+				for _, e := range in.Entries {
+					applied[e.K] = l.lookup(path, applied[e.K], e).next
+				}
+				if applied == st {
+					return []any{st}
+				}
+				return []any{st, applied}
+			}
 			for i, e := range in.Entries {
 				ld := l.lookup(path, st[e.K], e)
 				if ld.verdict != out.Verdicts[i] {
-					return false, st
+					return nil
 				}
 				st[e.K] = ld.next
 			}
-			return true, st
+			return []any{st}
 		},
 		DescribeOperation: func(input, output any) string {
 			return fmt.Sprintf("%+v -> %+v", input, output)
 		},
 	}
+	return nm.ToModel()
 }
 
 // steer parks a request between its read and its write when a rival on the same record is in
 // flight, so that broken locking turns into an overlap (under correct locking the rival is blocked
 // on the key lock and the park just times out).
 type steer struct {
-	mu       sync.Mutex
-	inflight map[[49]byte]int
-	parked   map[[49]byte]int
-	wake     map[[49]byte]chan struct{}
-	budget   time.Duration
-	parks    int64
-	met      int64
-	on       atomic.Bool
+	mu        sync.Mutex
+	inflight  map[[49]byte]int
+	parked    map[[49]byte]int
+	wake      map[[49]byte]chan struct{}
+	budget    time.Duration
+	cancels   map[[49]byte]context.CancelFunc // requests to be abandoned by their client while inside the rules
+	cancelled int64
+	parks     int64
+	met       int64
+	on        atomic.Bool
 }
 
 func newSteer(budget time.Duration) *steer {
-	return &steer{inflight: map[[49]byte]int{}, parked: map[[49]byte]int{}, wake: map[[49]byte]chan struct{}{}, budget: budget}
+	return &steer{inflight: map[[49]byte]int{}, parked: map[[49]byte]int{}, wake: map[[49]byte]chan struct{}{}, cancels: map[[49]byte]context.CancelFunc{}, budget: budget}
 }
 
 func rec49(pub []byte, action byte) [49]byte {
@@ -195,6 +226,15 @@ func (s *steer) hook(name string, keys [][]byte) error {
 	var k [49]byte
 	copy(k[:], keys[0])
 	s.mu.Lock()
+	if cancel := s.cancels[k]; cancel != nil {
+		// The client gives up on this request exactly while it sits between its read and its write.
+		delete(s.cancels, k)
+		s.mu.Unlock()
+		cancel()
+		atomic.AddInt64(&s.cancelled, 1)
+		time.Sleep(time.Duration(300+int(k[0])*6) * time.Microsecond)
+		s.mu.Lock()
+	}
 	if s.inflight[k] < 2 {
 		s.mu.Unlock()
 		return nil
@@ -241,10 +281,11 @@ func c04History(run *evid.Run, r *rand.Rand, env *Env, l *learner, st *steer, h 
 	clients := 6 + r.Intn(3)
 	perClient := 4 + r.Intn(2)
 	type planned struct {
-		in   c04In
-		atts []*AttCase
-		prop *PropCase
-		recs [][49]byte
+		in      c04In
+		atts    []*AttCase
+		prop    *PropCase
+		recs    [][49]byte
+		abandon bool
 	}
 	plans := make([][]planned, clients)
 	for c := range plans {
@@ -288,6 +329,7 @@ func c04History(run *evid.Run, r *rand.Rand, env *Env, l *learner, st *steer, h 
 				p.prop.Addr = RandAddr(r)
 				p.recs = [][49]byte{rec49(env.Keys[k].Pub, 3)}
 			}
+			p.abandon = r.Intn(5) == 0
 			plans[c] = append(plans[c], p)
 		}
 	}
@@ -303,6 +345,19 @@ func c04History(run *evid.Run, r *rand.Rand, env *Env, l *learner, st *steer, h 
 			<-barrier
 			for _, p := range plans[c] {
 				st.enter(p.recs)
+				if p.abandon {
+					ctx, cancel := context.WithCancel(context.Background())
+					for _, a := range p.atts {
+						a.Ctx = ctx
+					}
+					if p.prop != nil {
+						p.prop.Ctx = ctx
+					}
+					st.mu.Lock()
+					st.cancels[p.recs[0]] = cancel
+					st.mu.Unlock()
+					defer cancel()
+				}
 				call := time.Since(start).Nanoseconds()
 				var res []core.Result
 				switch p.in.Kind {
@@ -359,6 +414,16 @@ func c04History(run *evid.Run, r *rand.Rand, env *Env, l *learner, st *steer, h 
 		}
 	}
 	t := time.Since(start).Nanoseconds()
+	// A request with an indeterminate answer stays open beyond the end of the history.
+	nextClient := clients + 1
+	for i := range ops {
+		if c04Indeterminate(ops[i].Input.(c04In), ops[i].Output.(c04Out)) {
+			ops[i].Return = t + 1000
+			// porcupine requires one operation at a time per client: move it to a client of its own.
+			ops[i].ClientId = nextClient
+			nextClient++
+		}
+	}
 	ops = append(ops, porcupine.Operation{ClientId: clients, Input: c04In{Kind: "read"}, Call: t, Output: c04Out{Read: rd}, Return: t + 1})
 	return ops
 }
@@ -427,8 +492,7 @@ func c04Workload(run *evid.Run, cfg Cfg, histories int, report func(string, any)
 			verdictVectors[fmt.Sprint(op.Input.(c04In).Kind, out.Verdicts)] = true
 		}
 		if faulty {
-			stats.setAside++
-			continue
+			stats.setAside++ // counted; the history is still checked, with the failed requests as indeterminate operations
 		}
 		res, info := porcupine.CheckOperationsVerbose(model, ops, 60*time.Second)
 		switch res {
@@ -451,6 +515,7 @@ func c04Workload(run *evid.Run, cfg Cfg, histories int, report func(string, any)
 	run.Count("learned_semantics_entries", l.count)
 	run.Count("steer_parks", int(atomic.LoadInt64(&st.parks)))
 	run.Count("steer_rivals_met", int(atomic.LoadInt64(&st.met)))
+	run.Count("requests_abandoned_by_client_inside_rules", int(atomic.LoadInt64(&st.cancelled)))
 	return stats
 }
 
@@ -473,10 +538,10 @@ func C04(cfg Cfg) int {
 	histories := cfg.N(150, 3000)
 	stats := c04Workload(run, cfg, histories, func(w string, wit any) { run.Violate(w, wit) })
 	run.Eval(stats.ops)
-	run.Count("histories_checked", stats.histories-stats.setAside)
+	run.Count("histories_checked", stats.histories)
 	run.Count("operations", stats.ops)
 	run.Count("overlapping_same_key_pairs", stats.overlaps)
-	run.Count("histories_set_aside_failed_verdict", stats.setAside)
+	run.Count("histories_with_failed_verdicts", stats.setAside)
 	run.Count("porcupine_unknown", stats.unknown)
 	if stats.unknown > 0 {
 		run.Inconclusive(fmt.Sprintf("porcupine timed out on %d histories", stats.unknown))
